@@ -163,6 +163,16 @@ func DrawSXG(c *core.Ctx, label string, uniq int) *LSXG {
 	life := []int64{1, 30, 3600, 86400, 604799, 604800}
 	l.Expires = l.Date + life[c.Pick(label+".life", len(life))]
 	l.ValidityURL = fmt.Sprintf("https://%s%s/validity/%d", host, port, uniq)
+	if c.Chance(label+".validityOddChars", 1, 8) {
+		// characters that need quoting inside the Signature header's strings, also at the very end
+		l.ValidityURL += c.PickStr(label+".validityTail", `?dir=C:\v\`, `?q="x"`, `?a=\`, `?b=\"`, `?c=x\\`)
+		c.Probe("validity URL with quotes / backslashes")
+	}
+	if c.Chance(label+".acrossDST", 1, 10) {
+		// a maximal lifetime spanning a daylight-saving transition of a zone the process may run in
+		l.Date = core.DSTTransitions[c.Pick(label+".transition", len(core.DSTTransitions))] - c.I64(label+".beforeDST", 0, 604800)
+		l.Expires = l.Date + c.PickI64(label+".lifeDST", 604800, 604799, 601300)
+	}
 	l.CertURL = "https://cert.example/" + l.Leaf.Name + ".cbor"
 	l.Entropy = byte(c.Int(label+".entropy", 0, 255))
 	return l
